@@ -390,7 +390,23 @@ func ruleCryptRecipe(c *core.Ctx) {
 				return true
 			})
 			if sw == nil {
-				o.Fail("%s has no switch over the crypt recipe", fname)
+				// the switch may sit in an unexported helper the function calls
+				for _, cs := range core.CallsIn(info, fn.Decl.Body, true) {
+					if cs.Fn == nil || cs.Fn.Exported() || cs.Fn.Pkg() != fn.Obj.Pkg() {
+						continue
+					}
+					if h := c.Prog.FuncOf(cs.Fn); h != nil && h.Decl.Body != nil && sw == nil {
+						ast.Inspect(h.Decl.Body, func(n ast.Node) bool {
+							if s, ok := n.(*ast.SwitchStmt); ok && s.Tag != nil && core.IsNamed(h.Info().TypeOf(s.Tag), "pdf", "cryptRecipe") {
+								sw, fn, info = s, h, h.Info()
+							}
+							return true
+						})
+					}
+				}
+			}
+			if sw == nil {
+				o.Unrec("%s has no switch over the crypt recipe (neither itself nor in an unexported helper it calls)", fname)
 				continue
 			}
 			o.At(fn.Site(sw, "recipe switch"))
